@@ -17,7 +17,8 @@ func init() {
 			"D2 the iterator's array and size fields are never written after construction, the iterator never stores into its array, and every GetIterator of the collection package hands the constructor a snapshot that is fresh in that call (or delegates to another GetIterator); " +
 			"D3 no iterator state is reachable from a class or package-level variable." +
 			" Also: the snapshot of a Map takes each value from the visited entry, not from a second lookup of its key." +
-			" Round 7: for every collection with a mutex and GetIterator: no re-entry into a locking method inside a lock region (read locks and bracket helpers included).",
+			" Round 7: for every collection with a mutex and GetIterator: no re-entry into a locking method inside a lock region (read locks and bracket helpers included)." +
+			" Rounds 8-9: a caller-given signed slot is not negated before a lower bound on it.",
 		NotDecided: "that the snapshot handed over has the right content and order (that is C01-C03/C14), behaviour of moves over histories beyond the per-method transition relation (which, being deterministic and total, composes).",
 		Run:        runC17,
 	})
